@@ -71,6 +71,25 @@ def variants(case, sb, g, out, drv, key, thorough):
         vios.append(dict(kind='generated files changed by documenting other files in the same run', paths=diff[:5], status=r3['status']))
     if not r3.get('settings_unchanged', True):
         vios.append(dict(kind='document() modified the settings object it was given'))
+    if case.get('output') != 'nested':
+        # (g) into an output directory that an EARLIER run, made with other settings over the same files, has populated (the sources are
+        # not touched in between): every page is the one a run into an empty directory gives
+        st = case['settings']; old = copy.deepcopy(case)
+        old['settings'].update(g.choice([dict(prefix='OLD' + (st.get('prefix') or '')), dict(headers=['=', '~']), dict(ext_titles=not st.get('ext_titles', False), ext_modules=True),
+                                         dict(sep='::', prefix=None if st.get('prefix') else 'was'), dict(cfg={'incl': {f: False for f in impl.FLAGS}})]))
+        T.run_real(sb.dir, old, variant='stale'); r = T.run_real(sb.dir, case, variant='stale', keep_inputs=True)
+        out.traces_validated += 2; differs(r, 'what an earlier run with other settings had left in the output directory')
+        # (h) a lone file whose page has the name of one of this input's pages, documented first in the same run into the same directory
+        twins = [inp['name']] if inp['kind'] == 'file' else [c['name'] for c in inp['children'] if 'children' not in c and T.iscm(c['name'])]
+        if twins:
+            c5 = copy.deepcopy(c_alone)
+            c5['inputs'].insert(0, dict(kind='file', name=g.choice(sorted(twins)), content='#[[[\n# a namesake from elsewhere\n#]]\nfunction(namesake_before q)\nendfunction()\n'))
+            r5 = T.run_real(sb.dir, c5, variant='namesake')
+            out.traces_validated += 1
+            diff = [p for p in ra['files'] if r5['files'].get(p) != ra['files'][p]]
+            if r5['status'] != 'ok' or diff:
+                vios.append(dict(kind='generated files changed by documenting, earlier in the same run, another file whose page has the same name', paths=diff[:5], status=r5['status'],
+                                 alone={p: ra['files'][p] for p in diff[:1]}, after_the_namesake={p: r5['files'].get(p) for p in diff[:1]}))
     # model correspondence on the longer run
     mo = drv.run([T.model_request(c3, r3['abs_inputs'])])[0]
     if T.model_files(mo) != r3['files'] or mo['status'] != r3['status']:
